@@ -75,6 +75,12 @@ def run(chk):
                     chk.holds("R2", inst, "From o To = (%s)*v + (%s)" % (affine.n_show(comp.A), affine.n_show(comp.B)), loc_fr, nontrivial=(a_to.A != affine.num(1)))
                 else:
                     chk.violated("R2", inst, "FromStandard body %s; From o To = (%s)*v + (%s), not the identity" % (d_fr, affine.n_show(comp.A), affine.n_show(comp.B)), loc_fr)
+                # the value itself must not pass through a narrower type
+                from ..models import narrowing_casts
+                for direction, a_x in (("ToStandard", a_to), ("FromStandard", a_fr)):
+                    nar = [c for c in narrowing_casts(a_x.term, T) if ev.leaves(c[1])]
+                    if nar:
+                        chk.violated("R4b", inst + ":" + direction + ":narrowing", "the value is cast to %s inside the %s conversion (%s)" % (nar[0][0], T, ev.show(nar[0][1])[:100]), loc_to)
                 # R4
                 K = a_to.roundings + a_fr.roundings
                 multiplicative = (B == {})
